@@ -123,7 +123,7 @@ package internals
 //@ specfun bverdict(Fn, Iface) Bool
 //@ functype BoolTFunc(self, val, ctx)
 //@   pure
-//@   ensures result == bverdict(self, val)
+//@   names result == bverdict(self, val)
 
 // A test function either leaves the node untouched (verdict: pass) or does exactly what
 // ctx.AddIssue(ctx.IssueFromTest(ctx.Test, val)) does (verdict: fail).
@@ -388,3 +388,55 @@ package internals
 //@   pure
 //@   ensures result == unwrapped(x)
 //@   ensures istype(result, DpFactory) ==> istype(x, DpFactory)
+
+// ---- built-in predicates (C20): each closure decides exactly its documented predicate.
+//@ specfun deepeq(Iface, Iface) Bool
+
+//@ func LenMin$1(val, ctx)
+//@   implements functype BoolTFunc
+//@   requires[C06] value_is_pointer: istype(val, *T) && val.(*T) != nil
+//@   pure
+//@   ensures[C20] decides: result == (len(*val.(*T)) >= n)
+//@ func LenMax$1(val, ctx)
+//@   implements functype BoolTFunc
+//@   requires[C06] value_is_pointer: istype(val, *T) && val.(*T) != nil
+//@   pure
+//@   ensures[C20] decides: result == (len(*val.(*T)) <= n)
+//@ func Len$1(val, ctx)
+//@   implements functype BoolTFunc
+//@   requires[C06] value_is_pointer: istype(val, *T) && val.(*T) != nil
+//@   pure
+//@   ensures[C20] decides: result == (len(*val.(*T)) == n)
+//@ func EQ$1(val, ctx)
+//@   implements functype BoolTFunc
+//@   requires[C06] not_typed_nil: istype(val, *T) ==> val.(*T) != nil
+//@   pure
+//@   ensures[C20] decides: result == (istype(val, *T) && *val.(*T) == n)
+//@ func LTE$1(val, ctx)
+//@   implements functype BoolTFunc
+//@   requires[C06] not_typed_nil: istype(val, *T) ==> val.(*T) != nil
+//@   pure
+//@   ensures[C20] decides: result == (istype(val, *T) && *val.(*T) <= n)
+//@ func GTE$1(val, ctx)
+//@   implements functype BoolTFunc
+//@   requires[C06] not_typed_nil: istype(val, *T) ==> val.(*T) != nil
+//@   pure
+//@   ensures[C20] decides: result == (istype(val, *T) && *val.(*T) >= n)
+//@ func LT$1(val, ctx)
+//@   implements functype BoolTFunc
+//@   requires[C06] not_typed_nil: istype(val, *T) ==> val.(*T) != nil
+//@   pure
+//@   ensures[C20] decides: result == (istype(val, *T) && *val.(*T) < n)
+//@ func GT$1(val, ctx)
+//@   implements functype BoolTFunc
+//@   requires[C06] not_typed_nil: istype(val, *T) ==> val.(*T) != nil
+//@   pure
+//@   ensures[C20] decides: result == (istype(val, *T) && *val.(*T) > n)
+//@ func In$1(val, ctx)
+//@   implements functype BoolTFunc
+//@   requires[C06] value_is_pointer: istype(val, *T) && val.(*T) != nil
+//@   pure
+//@   ensures[C20] true_means_member: result ==> exists(i, 0, len(values), deepeq(box(*val.(*T)), box(values[i])))
+//@   ensures[C20] false_means_no_member: !result ==> forall(i, 0, len(values), !deepeq(box(*val.(*T)), box(values[i])))
+//@   loop rangeindex.loop#1
+//@     invariant[C20] none_so_far: forall(j, 0, zz_i, !deepeq(box(*val.(*T)), box(values[j])))
